@@ -1,6 +1,7 @@
 \* named deviation (must be refuted): MAOF bone count from the section size, as before aa82f05 -> ASSUME ReaderWriterAgree false
 CONSTANT SubmeshStep = 48
 CONSTANT AnimBoneRule = "size"
+CONSTANT RelocAdvanceAlways = FALSE
 CONSTANT ViewBatchBytes = 24
 INIT Init
 NEXT Next
